@@ -6,6 +6,7 @@
 -/
 import EG.Lemmas.StyledRectDraw
 namespace EG.C02.Rectangle
+open EG.Tgt
 open EG EG.Rect EG.StyledRect
 
 /-- `styled_bounding_box` is the stroke area. -/
